@@ -1785,6 +1785,8 @@ retry:
   case COAP_ENC_ASCII:
     value->u.value_bin =
         coap_new_bin_const((const uint8_t *)begin, end - begin);
+    if (value->u.value_bin == NULL)
+      goto bad_entry;
     break;
   case COAP_ENC_HEX:
     /* Parse the hex into binary */
@@ -1817,7 +1819,7 @@ bad_entry:
   coap_log_warn("oscore_conf: Unrecognized configuration entry '%.*s'\n",
                 (int)(end - begin),
                 begin);
-  return 0;
+  return -1;
 }
 
 #undef CONFIG_ENTRY
@@ -1889,6 +1891,7 @@ coap_parse_oscore_conf_mem(coap_str_const_t conf_mem) {
   coap_str_const_t keyword;
   oscore_value_t value;
   coap_oscore_conf_t *oscore_conf;
+  int split_result = 0;
 
   oscore_conf = coap_malloc_type(COAP_STRING, sizeof(coap_oscore_conf_t));
   if (oscore_conf == NULL)
@@ -1907,7 +1910,8 @@ coap_parse_oscore_conf_mem(coap_str_const_t conf_mem) {
   oscore_conf->break_recipient_key = 0;
 
   while (end > start &&
-         get_split_entry(&start, end - start, &keyword, &value)) {
+         (split_result = get_split_entry(&start, end - start, &keyword,
+                                         &value)) > 0) {
     size_t i;
     size_t j;
 
@@ -1992,6 +1996,10 @@ coap_parse_oscore_conf_mem(coap_str_const_t conf_mem) {
         coap_delete_bin_const(value.u.value_bin);
       goto error;
     }
+  }
+  if (split_result < 0) {
+    /* An entry that could not be taken in is not the end of the configuration */
+    goto error;
   }
   if (!oscore_conf->master_secret) {
     coap_log_warn("oscore_conf: master_secret not defined\n");
